@@ -37,7 +37,6 @@ def nt(case, res):
     m = res.get("model")
     if not m:
         return False
-    deep = any(len(t.bodies) >= 0 for t in m.threads)
     evs = mcvs(case)
     nx = sum(1 for e in evs if e[1:] == "Tx")
     par = sum(1 for e in evs if e == "VTC")
